@@ -13,7 +13,7 @@ This is support tooling for validating the checks, not part of any registered co
 import json, os, random, re, shutil, subprocess, sys, time
 
 FILES = {
-    "sqllogictest/src/parser.rs": ["C03", "C04", "C05", "C11", "C12", "C14", "C01", "C02", "C09"],
+    "sqllogictest/src/parser.rs": ["C03", "C04", "C05", "C11", "C12", "C14", "C01", "C02", "C09", "C07", "C06"],
     "sqllogictest/src/runner.rs": ["C01", "C02", "C09", "C10", "C11", "C15", "C13", "C12", "C07", "C06", "C08", "C17", "C14"],
     "sqllogictest/src/connection.rs": ["C12", "C02"],
     "sqllogictest/src/substitution.rs": ["C13"],
